@@ -333,6 +333,33 @@ func Dial(addr string, cfg *tls.Config, srcIP string) (*grpc.ClientConn, error) 
 
 var portSeq atomic.Uint32
 
+type lingerConn struct{ net.Conn }
+
+// Close resets the connection (no TIME_WAIT), so that the same local port can be used again at once.
+func (c lingerConn) Close() error {
+	if t, ok := c.Conn.(*net.TCPConn); ok {
+		_ = t.SetLinger(0)
+	}
+	return c.Conn.Close()
+}
+
+// DialFromPort opens a gRPC connection whose TCP connection originates from the given local address and port.
+func DialFromPort(addr string, cfg *tls.Config, srcIP string, srcPort int) (*grpc.ClientConn, error) {
+	return grpc.NewClient(addr, grpc.WithTransportCredentials(credentials.NewTLS(cfg)),
+		grpc.WithContextDialer(func(ctx context.Context, a string) (net.Conn, error) {
+			d := net.Dialer{LocalAddr: &net.TCPAddr{IP: net.ParseIP(srcIP), Port: srcPort}, Control: func(_, _ string, c syscall.RawConn) error {
+				var serr error
+				_ = c.Control(func(fd uintptr) { serr = syscall.SetsockoptInt(int(fd), syscall.SOL_SOCKET, syscall.SO_REUSEADDR, 1) })
+				return serr
+			}}
+			conn, err := d.DialContext(ctx, "tcp", a)
+			if err != nil {
+				return nil, err
+			}
+			return lingerConn{conn}, nil
+		}))
+}
+
 // FreePort returns a port that was free on the address a moment ago.  Ports are taken from below the
 // ephemeral range (so that outgoing connections of other processes cannot grab them in the meantime) and
 // spread by process id (so that concurrent runs of the harness do not pick the same ones).
